@@ -83,6 +83,14 @@ def plan(plan, tier, seed):
     except AnchorLost as e:
         plan.anchor_errors.append((n10, str(e)))
     plan.dropped.append(vC16.tspat_fn.__doc__.strip())
+    n11 = "C16.verus.pattern_matches_value.dispatch_by_pattern_kind"
+    plan.ob(n11, "verus", "proved", functions=["src/interpreter/src/patterns.rs: pattern_matches_value_with_semantics (the dispatch; arm blocks replaced by their stand-ins)"],
+            what="the wildcard matches anything and leaves the environment alone; a pattern of every other kind is matched against the DETACHED value by the arm of its own kind (tuple, array, expression / variable, tuple-struct), whose result and environment are returned unchanged; a pattern kind that is not enabled is an error")
+    try:
+        plan.verus.append(VerusUnit("c16_dispatch", vC16.dispatch_unit(vlib.read_repo(vC16.PPATH), feats), {"pattern_matches_value_with_semantics": n11}, ["canary_dispatch"]))
+    except AnchorLost as e:
+        plan.anchor_errors.append((n11, str(e)))
+    plan.dropped.append(vC16.dispatch_fn.__doc__.strip())
     n5 = "C16.verus.try_broadcast_user_function.elementwise_over_a_matrix"
     plan.ob(n5, "verus", "proved", functions=["try_broadcast_user_function (whole body)"],
             what="a function with one input and one output of the same scalar kind, called with one matrix argument, returns the matrix of the source's shape assembled from the function applied to each element -- each element once, in element order; an error in any application is an error; in every other situation the broadcast does not apply (and applies the function to nothing)")
@@ -105,5 +113,5 @@ def plan(plan, tier, seed):
         "`#[cfg(..)]` attributes inside the match_expression guard are evaluated for the default feature set read from src/interpreter/Cargo.toml (closure of `default`); the pattern matcher reads and extends the environment it is given, 'matches' in the property = matches in a fresh environment",
     ]
     plan.assumptions += ["match_expression arm loop: pattern_matches_value_with_semantics, guard_expression_true, expression, match_validate_arm_kinds are arbitrary functions (contracts/C16/matchmodel.rs); `detached_source` / `base_env` (computed above the loop) are parameters; nothing is claimed when the option/matrix coalescing case applies to the selected arm, nor when the guard of an earlier NON-matching arm fails to evaluate (the code evaluates such guards and reports their failure; the property is silent)"]
-    plan.undecided_clauses += ["C16: of match *expressions*: the statements above the arm loop (source evaluation, the Empty / wildcard pre-check), the option/matrix coalescing case, match_validate_arm_kinds and infer_missing_enum_match_patterns themselves; termination of a recursion, non-tail recursion (through expression evaluation), the exhaustiveness pre-check of execute_function_match_arms, the dispatch of pattern_matches_value_with_semantics over the pattern kinds (each arm is under contract on its own), values_match / matrix_like_values / capture_middle_matrix"]
+    plan.undecided_clauses += ["C16: of match *expressions*: the statements above the arm loop (source evaluation, the Empty / wildcard pre-check), the option/matrix coalescing case, match_validate_arm_kinds and infer_missing_enum_match_patterns themselves; termination of a recursion, non-tail recursion (through expression evaluation), the exhaustiveness pre-check of execute_function_match_arms, that the arm contracts and the dispatch contract compose (argued: the arm units name the matcher's result `pm_res`, the dispatch unit names the arms' results), values_match / matrix_like_values / capture_middle_matrix"]
     plan.level = "proof"
